@@ -227,6 +227,30 @@ CHECKS["C13"] = dict(
     note="FFT contract trusted; exact arithmetic with sqrt as a fresh non-negative root; small shapes.",
     design="DESIGN.md section 4 (C13)")
 
+CHECKS["C15"] = dict(
+    engine="E3: the real estimate_loc/estimate_scale/estimate_zscore/_scale_* and utils.apply_along_axes bytecode on numpy object arrays of symbolic reals; order statistics as uninterpreted functions of their ordered lane; z3",
+    technique="symbolic execution of the real estimator glue over numpy object arrays (numpy's own broadcasting/moveaxis/reshape), with every order statistic an uninterpreted function of the ordered lane it receives; z3 (EUF+LRA) decides lane-consistency, shapes and the zero-scale guard; models replayed on the real estimators",
+    text="PARTIAL. Decided: apply_along_axes hands each lane (or the flattened data) to the 1-D estimator in order for axis in {None, int, "
+         "negative, tuple}; estimate_loc (mean, median) and estimate_scale (std, iqr, mad, sn, qn, gapper, diffcov) along an axis equal the 1-D "
+         "estimator on each lane and over the whole array equal it on the flattened data, keepdims results broadcast against the input; "
+         "estimate_zscore's divisor is never zero (a near-zero scale is replaced by one) and z-scores keep the input's shape. "
+         "NOT decided: affine equivariance (scale(a*x+b)=|a|scale(x)) - encoding MAD/Sn/Qn through sorting networks at the minimum lane length "
+         "of 8 leaves z3 at `unknown` after 120 s; biweight (astropy) and doublemad (NaN masking); finiteness under float overflow.",
+    note="Order statistics (median, percentile, partition, sort, cov, std) are trusted uninterpreted functions of the ordered lane; small shapes.",
+    design="DESIGN.md section 4 (C15)")
+
+CHECKS["C16"] = dict(
+    engine="E3 on RFIMask.apply_mask/apply_method/apply_funcn (object arrays of symbolic booleans/reals) + E2 on Filterbank.clean_rfi orchestration and the apply_channel_mask streaming harness of C07; z3",
+    technique="symbolic execution of the real mask-combination bytecode with symbolic channel frequencies, range edges and arbitrary symbolic per-statistic/custom/previous masks; recorder-based execution of clean_rfi; the C07 streaming harness for the per-block masking; z3 decides; models replayed on the real RFIMask/clean_rfi",
+    text="PARTIAL. Decided: user mask = closed-interval membership of each channel centre frequency in any given range; statistics mask = union "
+         "of the variance/skewness/kurtosis masks computed with the mask's threshold; final mask = previous OR user OR statistics OR custom, and "
+         "no step ever unmasks a channel; clean_rfi applies the masks in order and hands the final mask, the mask value and the same plan to "
+         "apply_channel_mask, whose output (masked channels = mask value, every other sample bit-identical, every block, every gulp) is the "
+         "C07 harness re-run here. NOT decided: the outlier definitions inside double_mad_mask/iqrm_mask (robust estimators), the HDF5 round "
+         "trip of RFIMask.to_file/from_file (h5py is FFI), the default mask value.",
+    note="The per-statistic mask functions and the custom function are arbitrary boolean vectors; 3-4 channels, 0-2 ranges.",
+    design="DESIGN.md section 4 (C16)")
+
 NOT_APPLICABLE = {}
 
 PENDING = "check not built yet in this round (see DESIGN.md section 8 for the build order); no claim is made"
